@@ -414,13 +414,6 @@ def view_dicts(w, cfg):
                  w.And(w.eq(dct.get(1, 0.) * factor(1), m1), w.eq(dct[2] * factor(2), m2), w.eq(view[1], m1), w.eq(view[2], m2), ok_others(skip=(1, 2))))
         w.canary('canary: update stores mol', w.eq(dct[2], m2))
     if cfg['kind'] != 'mass':
-        # representation invariant of the per-index cache: an entry that is "in equilibrium" with the live TP holds
-        # 1000*V_i(phase_now, T_now, P_now)
-        cs = []
-        for i, (TPc, Vc) in view.cache.items():
-            same = w.And(w.eq(TPc._T, TP._T), w.eq(TPc._P, TP._P))
-            cs.append(w.Implies(same, w.eq(Vc, factor(i))))
-        w.ensure('cache invariant: cached volume valid for the live (phase, T, P)', w.And(*cs))
         w.ensure('T, P not changed by the view', w.And(w.eq(TP._T, Ts[-1] if cfg['hist'] != 'cached-then-T-and-back' else T0), w.eq(TP._P, Ps[-1])))
 
 
@@ -818,6 +811,8 @@ def histories(w, cfg):
                 s.copy_like(other('os'))
         elif op == 'link':
             o = other('o')
+            if o._thermo is not s._thermo:         # requires of link_with: both streams use the same property package
+                o._reset_thermo(s._thermo)         # (flow data are shared positionally)
             r = attempt(lambda: s.link_with(o))
             same_class = isinstance(o._imol, type(s._imol))
             if same_class:
